@@ -26,7 +26,9 @@ def install_cuts(E):
 
     def _get_row_selection(self, values, ilocs, keep_input_index=False, n=None):
         """cut: the positional take / index restoration is pandas code; the positions are the result"""
-        return FakeSeries(ilocs.ravel() if hasattr(ilocs, "ravel") else ilocs, None)
+        out = FakeSeries(ilocs.ravel() if hasattr(ilocs, "ravel") else ilocs, None)
+        out.ilocs_shape = tuple(getattr(ilocs, "shape", ()))
+        return out
 
     def _build_group_sorted_index(self, inner_index=None):
         """cut: the (group label, original index) MultiIndex is pandas code"""
